@@ -110,10 +110,6 @@ def proj(spec, st):
             r["re"].append(_one(sigs, lambda n: n == "re", "re"))
             if h["r2"]:
                 r["r2"].append(_one(sigs, lambda n: n == "r", "r"))
-    want = set(r["datr"] + r["sto"] + r["re"] + r["back"] + r["r2"])
-    extra = [s for s in st.regs if s not in want and _leaf(s)[0] != "harness_prev_master"]
-    if extra:
-        raise KeyError("registers of the netlist without a place in the model: %r" % [_leaf(s) for s in extra])
     return r
 
 
@@ -172,6 +168,41 @@ LANE = Lane("csrbank", "csrbank/CsrBankModelConf", model_cfg, "harness.families.
             clauses=("OutputsAgree", "NextStateAgrees", "ResetAgrees", "LayoutAgrees"), m_module="csrbank/CsrBankModelM")
 
 
+def conform(lane, duts, limit=60000, timeout=900, notes=None):
+    """l2.conformance in chunks of at most `limit` cases (every TLC worker loads the JSON constant: 4 workers, bounded
+    size).  The lane must never turn a check into a machinery failure: if TLC cannot evaluate a chunk (killed, time-out,
+    out of memory) it is tried once more and then only noted as not evaluated - that is neither a drift nor a verdict.
+    -> (cases judged, drifts)"""
+    from .. import l2
+    duts = [d for d in duts if d["cases"]]
+    n, drifts, chunk, size = 0, [], [], 0
+
+    def flush():
+        nonlocal n, drifts
+        if not chunk:
+            return
+        err = None
+        for attempt in (1, 2):
+            try:
+                k, dr = l2.conformance(lane, list(chunk), timeout=timeout, workers=4, heap="8g")
+                n += k
+                drifts += dr
+                return
+            except MachineryError as ex:
+                err = str(ex).split("\n")[0][:200]
+        if notes is not None:
+            notes.append("L2 conformance (%s): %d case(s) of %d DUT(s) could not be evaluated (%s); no drift is claimed for them" % (
+                lane.name, sum(len(d["cases"]) for d in chunk), len(chunk), err))
+    for d in duts:
+        if chunk and size + len(d["cases"]) > limit:
+            flush()
+            chunk, size = [], 0
+        chunk.append(d)
+        size += len(d["cases"])
+    flush()
+    return n, drifts
+
+
 # ------------------------------------------------------------------------------ construction conformance
 def construction_conformance(cfgs, timeout=900):
     """cfgs: contract configurations of register lists run through the REAL constructor (tla_cfg: built / error / map).
@@ -225,36 +256,41 @@ def _mc(spec):
 
 
 def mmode_configs(tier):
-    """register sets beyond G-mode: five registers of up to four bus words per bank, both orderings, atomic writes
-    (2-4 words), device writes, fields, fixed locations with reserved fillers, two banks.  Write data alphabets
-    are kept to one or two values per word so that the product of the register contents stays enumerable."""
+    """register sets beyond G-mode (there: at most 2 registers of at most 3 words per bank, at most 4 per DUT): banks of
+    five and six registers of up to four bus words, both orderings, atomic writes of 2-4 words, device writes, fields
+    with a pulse bit, fixed locations with reserved fillers, two banks behind one master.  The product of the register
+    contents is what TLC enumerates, so write data alphabets have one value and only two or three registers of a bank
+    hold multi-word writable content; the others are wide read-only / raw registers."""
     R, F, S = fam.R, fam.F, fam.S
     th = tier == "thorough"
     L = []
-    for o in ("big", "little"):
-        # A: 8-bit storage (4 words), 7-bit atomic (4 words, last one 1 bit), writable status (3 words), raw CSR, status
-        L.append(S(2, o, [(1, [R("storage", 8, reset=0xa5), R("storage_atomic", 7, reset=0x55),
-                               R("status_rw", 5, dvs=[0x15]), R("csr", 2, dvs=[2]), R("status", 4, dvs=[9])])],
-                   dats=[1, 2] if th else [2], paging=64, npages=2))
-        # B: atomic + device write (3 words), device-writable storage (2 words), fields with a pulse bit, fixed
-        #    locations (a reserved filler at location 1), a wide status with fields
-        L.append(S(2, o, [(0, [R("storage_atomic_dev", 6, reset=0x2a, dvs=[0x15]), R("storage_dev", 4, reset=3, dvs=[9]),
-                               R("storage", 5, fields=[F(2, reset=1), F(1, pulse=1), F(1, offset=4, reset=1)], n=0),
-                               R("status", 7, fields=[F(3), F(2, offset=5)], dvs=[0, 0x1d]),
-                               R("storage", 2, reset=1, n=6)])],
-                   dats=[1, 2] if th else [1], paging=64, npages=2))
-        # C: 4-bit bus words, registers of 13 / 16 / 9 bits (4 / 4 / 3 words), atomic
-        L.append(S(4, o, [(1, [R("storage", 13, reset=0x1a5a), R("storage_atomic", 16, reset=0x1234),
-                               R("status_rw", 9, dvs=[0x155]), R("storage_atomic", 9), R("csr", 4, dvs=[9])])],
-                   dats=[6, 9] if th else [6], paging=64, npages=2))
+    def QA(o):
+        # 3-word storage, 2-word atomic storage, writable status, raw CSR, 4-word driven status
+        return S(2, o, [(0, [R("storage", 6, reset=0x25), R("storage_atomic", 4, reset=9), R("status_rw", 2, dvs=[2]),
+                             R("csr", 2, dvs=[2]), R("status", 8, dvs=[0x9c])])], dats=[3], paging=64, npages=1)
+
+    def QB(o):
+        # atomic + device write, fields with a pulse bit at a fixed location 0, a 4-word status with fields, a
+        # register at fixed location 6 (two reserved fillers), a raw CSR
+        return S(2, o, [(0, [R("storage_atomic_dev", 4, reset=6, dvs=[9]),
+                             R("storage", 5, fields=[F(2, reset=1), F(1, pulse=1), F(1, offset=4, reset=1)], n=0),
+                             R("status", 7, fields=[F(3), F(2, offset=5)], dvs=[0, 0x1d]),
+                             R("storage", 2, reset=1, n=6), R("csr", 1)])], dats=[2], paging=64, npages=1)
+    L += [QA("big"), QB("little")]          # the quick tier takes one ordering of each
     if th:
+        L += [QA("little"), QB("big")]
         for o in ("big", "little"):
-            # two banks of three registers behind one master
-            L.append(S(2, o, [(1, [R("storage_atomic", 8, reset=0x3c), R("status", 3, dvs=[5]), R("storage", 3)]),
-                              (3, [R("storage_dev", 7, dvs=[0x55]), R("status_rw", 8), R("csr", 1, dvs=[1])])],
-                       dats=[1, 2], paging=32, npages=4))
-            # six registers, all four words wide
-            L.append(S(2, o, [(2, [R("storage", 8), R("storage_atomic", 8), R("storage_dev", 7, dvs=[0x41]),
-                                   R("status_rw", 8), R("status", 8, dvs=[0x99]), R("storage_atomic_dev", 7, dvs=[0x7e])])],
-                       dats=[1], paging=128, npages=2))
+            # TA: 4-word atomic storage (last word one bit), writable status, raw CSR, 4-word status, 1-word storage
+            L.append(S(2, o, [(0, [R("storage_atomic", 7, reset=0x55), R("status_rw", 2, dvs=[1]), R("csr", 2, dvs=[2]),
+                                   R("status", 8, dvs=[0x9c]), R("storage", 2, reset=1)])], dats=[3], paging=64, npages=1))
+            # TD: two banks of three registers behind one master (pages 1 and 3 of 4); big ordering only (1.25 * 10^6
+            # transitions under little ordering, where AtomicCommit is excluded anyway)
+            if o == "big":
+                L.append(S(2, o, [(1, [R("storage_atomic", 4, reset=0xc), R("status", 3, dvs=[5]), R("storage", 3)]),
+                                  (3, [R("storage_dev", 4, dvs=[9]), R("status_rw", 2), R("csr", 1, dvs=[1])])],
+                           dats=[1], paging=32, npages=4))
+            # TE: six registers
+            L.append(S(2, o, [(0, [R("storage", 6), R("storage_atomic", 4, reset=5), R("storage_dev", 2, dvs=[1]),
+                                   R("status_rw", 2), R("status", 8, dvs=[0x99]), R("csr", 2, dvs=[1])])],
+                       dats=[2], paging=64, npages=1))
     return [_mc(s) for s in L]
